@@ -1043,7 +1043,7 @@ pub fn run_case(case: &Value) -> Vec<Value> {
 pub fn replay(cases: &[Value], out: &mut TraceOut) {
     // every case runs on its own thread under a wall-clock watchdog: a poll of the connection task that never
     // returns (an endless loop inside the dispatcher) becomes a "Hang" event instead of a harness time-out
-    const HANG_SECS: u64 = 60;
+    const HANG_SECS: u64 = 120;
     const MAX_HANGS: usize = 3;
     let mut hangs = 0usize;
     for (i, case) in cases.iter().enumerate() {
